@@ -19,6 +19,8 @@ def main(tier, seed):
     # "within one interpreter ... at most once": the same module imported again by later runs of one interpreter, after runs that failed in
     # every way; and imports made while a function of the imported module is on the call stack (loaded: no cycle; still loading: a cycle)
     profcheck.run_scenarios(rep, "rerunreentry", scenarios.module_rerun_scenarios(), bins, PROP)
+    # "each module sees the built-ins": a built-in name rebound by the importer or by another module, before or after the load
+    profcheck.run_scenarios(rep, "modulebuiltins", scenarios.module_builtin_scenarios(), bins, PROP)
     rep.coverage["exhaustive"] = False
     rep.sample({"kind": "modules scenario", "id": progs[0][0], "structure": {"snippets": len(progs[0][1]["snips"]), "modules": [m["path"] for m in progs[0][1]["mods"]]}})
     rep.coverage["rule"] = ("seeded import graphs over main + 1-3 modules: every edge present or absent (self loops, 2- and 3-cycles, diamonds), imports at top "
